@@ -424,6 +424,14 @@ def run(F, run, tier):
         except Missing as e:
             run.broken("R1.2", sname, "anchor", "src/ivp", str(e))
     check_initial_dt(F, run)
+    # the gap bound is only as good as the bounds the builders hand to the steppers: the step setters (shared with C06 R6.1/R6.2) must store
+    # the requested bounds, keep min <= max, and — for Euler, whose single step is derived from them — leave the step between them
+    for bname in c06.BUILDERS:
+        for m in ("with_maximum_dt", "with_minimum_dt"):
+            try:
+                c06.check_setter(F, run, bname, m)
+            except Missing as e:
+                run.broken("R6.1", "%s::%s" % (bname, m), "anchor", "src/ivp", str(e))
     check_protocol(F, run, tier)
     run.assumptions += ["runge_kutta(m) is abstracted as 'push the m points p+1..p+m and move m steps' (its body is verified by C03-R3.2)",
                         "all guards other than those on yield_memory / deque emptiness / time-vs-end after a clip are nondeterministic (over-approximation)",
